@@ -32,11 +32,12 @@ TBlacklist     == IsEvent("Blacklist") /\ R.res = BlacklistRes(R.p, R.h) /\ Blac
 TClearBl       == IsEvent("ClearBlacklist") /\ ClearBlacklist(R.h) /\ ObsOK
 TTick          == IsEvent("Tick") /\ R.d > 0 /\ Tick(R.d) /\ ObsOK
 TCloseConn     == IsEvent("CloseConn") /\ R.c \in Conns /\ R.closed /\ CloseConn(R.c) /\ ObsOK
-\* scheduler-level event (not produced by the connstate engine): one peer of an announce result was dialled
-TDial          == IsEvent("Dial") /\ R.res = AddPendingRes(R.p, R.h, <<>>) /\ Dial(R.p, R.h) /\ ObsOK
+\* scheduler events applied to a real scheduler state that owns the State under test
+TAnnounce      == IsEvent("Announce") /\ Announce(R.h, R.peers) /\ ObsOK
+THsFailed      == IsEvent("HandshakeFailed") /\ HandshakeFailed(R.p, R.h) /\ ObsOK
 
 TraceNext == TReset \/ TAddPending \/ TDeletePending \/ TMoveToActive \/ TDeleteActive
-             \/ TBlacklist \/ TClearBl \/ TTick \/ TCloseConn \/ TDial
+             \/ TBlacklist \/ TClearBl \/ TTick \/ TCloseConn \/ TAnnounce \/ THsFailed
 TraceSpec == TraceInit /\ [][TraceNext]_tvars
 
 HW == TLCSet(1, IF TLCGet(1) < l THEN l ELSE TLCGet(1))
